@@ -44,6 +44,9 @@ KNOWN_MEM_EXACT = "mem-exact-undefined-read-address"
 # a register whose output signal is an OUT port of a sub-entity has no VHDL initial value ('U' until the first edge); honoured only if listed
 KNOWN_REG_PORT = "reg-output-port-no-initial-value"
 ALLOW_EXACT = False
+# STD_LOGIC_VECTOR("X0" & "101"): concatenation of two bit-string literals as operand of a type conversion has no determinable type
+# (reported to main); honoured only if KNOWN_FINDINGS.txt lists it
+KNOWN_CAT_LIT = "concat-literals-in-slv-conversion"
 KNOWN_SHIFT_LIT = "shift-literal-operand"     # honoured only if KNOWN_FINDINGS.txt lists it (reported to main, see corpus/*.pending)
 
 
@@ -244,6 +247,105 @@ def gen_mem(seed, did, pattern=None):
     return L, ["memory", "mem_" + pattern, "rom" if not ram else "ram"]
 
 
+def gen_multiclk(seed, did):
+    """2-3 clock PINS, mostly with colliding names (unnamed second root clock = "sysclk" again; multiplied / divided derived
+    clock keeps its parent's name; each entity de-duplicates names in its own namespace: sysclk, sysclk_2, ...), registers and
+    memories of the different clocks in different sub-entities - a sub-entity typically uses only a strict subset of the equally
+    named clocks, sometimes nested one more level - so that every clock / reset port must be resolved through the chain of port
+    maps to the right top-level pin.  The pins run at different frequencies (ratio <= 8), so a wrong binding changes values."""
+    rng = random.Random(seed)
+    L = [f"design {did}"]
+    if rng.random() < 0.5:
+        L.append(rng.choice(["clockcfg none high", "clockcfg async high", "clockcfg sync low", "clockcfg sync high"]))
+    w = rng.choice([2, 2, 3])
+    one = format(1, "0%db" % w)
+    L.append(f"lit one u{w} {one}")
+    extra = []
+    factors = {"main": 8}     # frequency in units of 12.5 MHz (main = 100 MHz)
+    for k in range(rng.choice([1, 1, 2])):
+        name = f"c{k}"
+        named = " name=" + rng.choice(["fastclk", "auxclk"]) + str(k) if rng.random() < 0.2 else ""
+        kind = rng.random()
+        if kind < 0.4:
+            d = rng.choice([2, 4])
+            opts = rng.choice(["", "", " none", " async high", " sync low", " rst rstx"])
+            L.append(f"rootclock {name} div={d}{named}{opts}")
+            factors[name] = 8 // d
+        else:
+            par = rng.choice(["main"] + [e for e in extra if factors[e] in (4, 8, 16)])
+            cand = [("mult", m) for m in (2, 4) if 2 <= factors[par] * m <= 32] + [("div", m) for m in (2, 4) if factors[par] // m >= 2 and factors[par] % m == 0]
+            op, m = rng.choice(cand)
+            L.append(f"clockdef {name} from={par} {op}={m}{named}")
+            factors[name] = factors[par] * m if op == "mult" else factors[par] // m
+        extra.append(name)
+        if max(factors.values()) // min(factors.values()) > 8:
+            L.pop(); extra.pop(); del factors[name]
+    if not extra:
+        L.append("clockdef c0 mult=2"); extra.append("c0")
+    n = [0]
+
+    def fresh(p):
+        n[0] += 1
+        return f"{p}{n[0]}"
+
+    def domain_logic(dom, depth=0):
+        """registers of one clock domain (own input pins, a counter, a chain), outputs declared inside the scope"""
+        a, en = fresh("a"), fresh("e")
+        out = [f"in {a} {w}", f"inb {en}"]
+        c, m, q = fresh("x"), fresh("t"), fresh("q")
+        out += [f"loopvar {c} {w}", f"bin {m} add {c} one", f"reg {q} {m}" + (" rst " + "0" * w if rng.random() < 0.8 else "") + (f" en {en}" if rng.random() < 0.3 else ""), f"close {c} {q}"]
+        vals = [a, q]
+        for _ in range(rng.choice([1, 2, 3])):
+            r = fresh("r")
+            src = rng.choice(vals)
+            if rng.random() < 0.3:
+                t = fresh("t")
+                out.append(f"bin {t} {rng.choice(['add', 'xor', 'sub'])} {src} {rng.choice(vals)}")
+                src = t
+            out.append(f"reg {r} {src}" + (" rst " + "".join(rng.choice("01") for _ in range(w)) if rng.random() < 0.6 else ""))
+            vals.append(r)
+        if rng.random() < 0.25:      # inferred memory clocked by this domain (its entity uses only this clock)
+            mn, ra, rd = fresh("m"), fresh("a"), fresh("d")
+            words = ["".join(rng.choice("01") for _ in range(w)) for _ in range(4)]
+            out += [f"in {ra} 2", f"mem {mn} 4 {w} fill={''.join(reversed(words))}", f"memwrite {mn} {ra} {vals[-1]} {en}", f"memread {rd} {mn} {ra}", f"reg {rd}r {rd}"]
+            vals.append(f"{rd}r")
+        for v in vals[1:]:
+            out.append(f"out o_{v} {v}")
+        return out, vals
+
+    # top level: the design clock is used here, so that it ranks first among the equally named clocks
+    top, tvals = domain_logic("main")
+    L += top
+    for k, ck in enumerate(extra):
+        shape = rng.random()
+        body, vals = domain_logic(ck)
+        if shape < 0.75:
+            L.append(f"area sub{k} entity")
+            L.append(f"clk {ck}")
+            L += body
+            if rng.random() < 0.4:      # one more level, same clock only
+                inner, _ = domain_logic(ck)
+                L += [f"area inner{k} entity"] + inner + ["endarea"]
+            if rng.random() < 0.3:      # marked crossing from the design clock's domain into this one
+                x, r = fresh("x"), fresh("r")
+                L += [f"cdc {x} {tvals[-1]} main {ck}", f"reg {r} {x}", f"out o_{r} {r}"]
+            L.append("endclk")
+            if rng.random() < 0.3:      # the same entity also uses the design clock (all equally named clocks: names line up)
+                more, _ = domain_logic("main")
+                L += more
+            L.append("endarea")
+        else:                            # flat: registers of the second pin in the top entity, a sub-entity on the design clock only
+            L.append(f"clk {ck}")
+            L += body
+            L.append("endclk")
+            more, _ = domain_logic("main")
+            L += [f"area subm{k} entity"] + more + ["endarea"]
+    if len(extra) == 2 and rng.random() < 0.5:      # entity that uses only the LAST of three pins
+        body, _ = domain_logic(extra[1])
+        L += ["area last entity", f"clk {extra[1]}"] + body + ["endclk", "endarea"]
+    return L, ["multiclk"]
+
+
 def gen_all(seed, tier):
     ndes = 60 if tier == "quick" else 1500
     nwide = 8 if tier == "quick" else 150
@@ -261,6 +363,8 @@ def gen_all(seed, tier):
         designs.append(gen_wide(seed * 300007 + i, f"w{i}"))
     for i in range(10 if tier == "quick" else 200):
         designs.append(gen_edges(seed * 500009 + i, f"e{i}"))
+    for i in range(8 if tier == "quick" else 120):
+        designs.append(gen_multiclk(seed * 900007 + i, f"k{i}"))
     nmem = 12 if tier == "quick" else 200
     for i in range(nmem):
         # quick: every image pattern at least once
@@ -334,7 +438,7 @@ def analyse(did, out, progl=()):
     # route 2: interpreter
     try:
         act = reset_polarity(el)
-        todo = list(htr.items()) + [(k, t) for k, t in tr.items() if period_trace_usable(t)]
+        todo = list(htr.items()) + [(k, t) for k, t in tr.items() if period_trace_usable(t, meta)]
         for tag, t in todo:
             m = S.replay_trace(el, t, reset_active=act, stats=r["stats"], meta=meta)
             if m:
@@ -367,8 +471,10 @@ def analyse(did, out, progl=()):
     return r
 
 
-def period_trace_usable(t):
-    """nd::runTrace logs reset events without the pin's name: usable only if the simulator has a single reset pin"""
+def period_trace_usable(t, meta=None):
+    """nd::runTrace logs clock and reset events without the pin's name: usable only for a single clock pin and reset pin"""
+    if meta and len([x for x in meta.get("clkports", "-").split(",") if x != "-"]) > 1:
+        return False
     return bool(t.get("cycles")) and sum(1 for e in t["cycles"][0][2] if e[0] == "R") <= 1
 
 
@@ -485,6 +591,7 @@ def main():
             LISTED.add(key)
     known_shift_lit_listed = any(k.startswith(KNOWN_SHIFT_LIT) for k in known)
     known_shift_lit = []
+    known_cat_lit = []
 
     designs = load_corpus()
     replay_stim = None
@@ -609,7 +716,7 @@ def main():
         mf = d / f"{did}.meta"
         meta = dict(x.split("=", 1) for x in mf.read_text().split()) if mf.exists() else {}
         nres = len([x for x in meta.get("resets", "-").split(",") if x != "-"]) if mf.exists() else 1
-        todo = list(S.parse_htraces(d / f"{did}.htrace").items()) + [(k, t) for k, t in circ.parse_traces(d / f"{did}.trace").items() if k != "SKIP" and period_trace_usable(t)]
+        todo = list(S.parse_htraces(d / f"{did}.htrace").items()) + [(k, t) for k, t in circ.parse_traces(d / f"{did}.trace").items() if k != "SKIP" and period_trace_usable(t, meta)]
         for tag, t in todo:
             if tag == "SKIP":
                 continue
@@ -676,6 +783,10 @@ def main():
         if reason is None or any(v.get("design") == did for v in violations):
             continue
         disagreements += 1
+        if any(k.startswith(KNOWN_CAT_LIT) for k in known) and "type conversion std_logic_vector(..) applied to str" in reason and \
+                any(re.search(r'STD_LOGIC_VECTOR\("[01xX]*" & ', l) for f in vhdl_files(WORK / ("run_" + mode) / did) for l in open(f, errors="replace")):
+            known_cat_lit.append((did, mode))
+            continue
         mo = re.search(r"register (\S+) has reset value \S+ but no initial value", reason)
         if mo and KNOWN_REG_PORT in LISTED and a.get("lift") == "error" and a.get("interp") == "ok":
             # the lifter's structural view of the known finding: accepted only for registers assigned directly to a sub-entity OUT port
@@ -727,7 +838,7 @@ def main():
     rep.cov["rule"] = ("design programs: corpus/C02 (hand-written: async/sync x high/low reset, registers / memory ports on rising+falling+both edges of one clock pin with data crossing between the edges, several reset pins, nested entities and areas, wide arithmetic, non-total mux, "
                        "memories incl. ROM/RAM 16x8 with words 0..5 undefined, tristate, falling edge, X-selector mux) + seeded lib/designgen.py shapes (if/elif chains, mux chains/merges, registers with "
                        "reset+enable, hold loops, constant folding, areas/entities, slices, shifts, arithmetic), ~45% with a random reset kind/polarity, "
-                       "+ wide-operand programs (8..128 bit; interpreter route only) + mixed-edge programs (derived clocks on one pin: falling / both edges, own reset names/kinds/polarities, cross-edge data paths; interpreter route only) + memory programs (ROM/RAM, declared partially defined power-on images, full address sweeps; interpreter route only).  Each is built, post-processed and exported by the real library. "
+                       "+ wide-operand programs (8..128 bit; interpreter route only) + mixed-edge programs (derived clocks on one pin: falling / both edges, own reset names/kinds/polarities, cross-edge data paths; interpreter route only) + multi-clock-pin programs (2-3 pins of different frequency with colliding names, per-clock sub-entities; interpreter route only) + memory programs (ROM/RAM, declared partially defined power-on images, full address sweeps; interpreter route only).  Each is built, post-processed and exported by the real library. "
                        "non-trivial = distinct exported top-entity text whose lifted netlist contains at least one register / mux / arithmetic / compare / "
                        "shift node AND whose certificate was accepted by the verified checker")
     rep.cov["output_modes"] = modes
@@ -752,6 +863,10 @@ def main():
     rep.cov["unsupported_share"] = round((len(uns) + len(lift_uns)) / max(1, len(exported)), 4)
     memd = [i for i in ids if any(l.startswith("mem ") and "fill=" in l for l in prog[i])]
     rep.cov["memories_with_declared_power_on_image"] = len(memd)
+    mp = [a for a in allr if a["status"] == "ok" and len([x for x in a.get("meta", {}).get("clkports", "-").split(",") if x != "-"]) > 1]
+    rep.cov["multi_clock_pin_exports"] = len(mp)
+    rep.cov["multi_clock_pin_exports_with_colliding_names"] = sum(1 for a in mp if any(re.search(r"_\d+$", x) for x in a["meta"]["clkports"].split(",")))
+    rep.cov["multi_clock_pin_exports_with_sub_entities"] = sum(1 for a in mp if a.get("instances", 1) > 1)
     nc = [a for a in allr if a["status"] == "ok" and not a.get("classic", True)]
     rep.cov["mixed_edge_or_multi_reset_exports"] = len(nc)
     rep.cov["clock_edge_sets_seen"] = sorted({a["meta"].get("edges", "-") for a in allr if a.get("meta")})
@@ -786,6 +901,7 @@ def main():
         "route 1: on undefined values the lifted netlist is evaluated with gatery's node semantics (NetDefs/NodeSemDefs), not numeric_std's; for the VHDL text only two-valued agreement (all stimuli, all cycles) and never-contradict of the lifted circuit are claimed",
         "route 2: VHDL metavalue rules (\"=\" on metavalues FALSE, X condition takes ELSE, CASE falls to OTHERS, arithmetic all-X) are modelled, but only the sampled stimuli are replayed",
         "dumped netlist and lifted netlist are each tied to the real ReferenceSimulator by per-cycle trace comparison (tie); circuit model: single clock, rising edge, reset schedule from the real simulator's event log",
+        "several clock pins: designs with 2-3 clock pins of different frequency (unnamed second root clocks and multiplied/divided derived clocks whose names collide with the design clock's, sub-entities and inferred memories using a strict subset of them, nested entities, marked crossings) are elaborated by resolving every clock / reset port through the chain of port maps to a top-level port; the reference simulator's edges and reset levels are replayed per exported top-level port name at the resolution of the fastest half period (edges of one instant applied together), so a clock or reset port bound to the wrong top-level pin changes observed values; interpreter route + exporter test vectors only",
         "clock edges: every design is additionally replayed on HALF-PERIOD traces (inputs change and outputs are sampled between every two clock edges, reset pins by their exported names), so the edge written in each exported process (rising_edge / falling_edge / 'event) is what decides when a register updates; designs with falling/both-edge registers or several reset pins on one clock pin are covered by this interpreter route only (the certificate checker's circuit model is single rising-edge clock, one reset pin)",
         "memories (GenericMemoryEntity: array signal with the power-on aggregate `(k => \"..\", others => (others => 'X'))`, asynchronous and registered read ports, read latency registers, write ports on either edge) are executed by the interpreter only (lifter-unsupported): ROMs and RAMs with declared, partially defined power-on images (holes at the start / middle / end, single words, single bits; widths 1..9, depths 2..32) are read at every address by counter-driven ports; known findings mem-exact-undefined-read-address and reg-output-port-no-initial-value are accepted only when re-running the interpreter with exactly that one deviation removed reproduces the whole trace (see classify_known); unsupported by both: tristate / inout pins, external nodes, generics, multi-clock designs; falling-edge clocks and designs wider than %d input bits are covered by the interpreter route only" % MAX_CERT_IN_BITS,
         "register power-on: the lifter requires signal initial value == reset value (the netlist format has one value for both); the interpreter models VHDL initial values exactly",
@@ -817,6 +933,8 @@ def main():
             did, mode, m = ks[0]
             rep.known(f"{key} ({len(ks)} exports this run, e.g. {did} sample {m['cycle']} pin {m['pin']}: simulator {m['expected']}, VHDL {m['observed']}, inputs {m.get('inputs')})")
     rep.cov["known_finding_exports"] = {key: sum(1 for k in knowns if k[2].get("known_key") == key) for key in (KNOWN_CASE, KNOWN_MEM_EXACT, KNOWN_REG_PORT)}
+    if known_cat_lit:
+        rep.known(f"{KNOWN_CAT_LIT} ({len(known_cat_lit)} exports this run, e.g. {known_cat_lit[0][0]}: STD_LOGIC_VECTOR(\"..\" & \"..\") has no determinable operand type)")
     if known_shift_lit:
         rep.known(f"{KNOWN_SHIFT_LIT} ({len(known_shift_lit)} exports this run, e.g. {known_shift_lit[0][0]}: SHIFT_x(\"literal\", ..) inside a type conversion is ambiguous)")
     seen = 0
